@@ -527,10 +527,6 @@ func c31GenReq(r *vu.RNG, numbers []uint64, mainLen uint64) string {
 }
 
 func c31Gen(r *vu.RNG, n int, emit func(string)) {
-	// vu.NewRNG(seed) starts seed k+1 one draw behind seed k on the same splitmix64 sequence, so
-	// generators of consecutive seeds fall into step after a few cases; a forked generator
-	// (state = a mixed output) gives unrelated sequences for different seeds
-	r = r.Fork()
 	// plans: every start in the boundary set with every length 0..600 would be 4 200 cases; the quick
 	// tier takes the boundary lengths, the thorough tier all of them
 	starts := []uint64{0, 1, 2, 127, 128, 129}
